@@ -525,5 +525,43 @@ def rule_z8(repo):
     return res
 
 
+def rule_s4(repo):
+    """solve_with_interval accepts a goal when the set of solutions within the premise's interval is that interval (or, for
+    a disequation, when it is empty).  A set is compared as a whole: two intervals with the same end points differ in whether
+    the end points belong to them, and 1 - x*x > 0 holds on [0, 1) but not on [0, 1].  Every answer that can be True is the
+    comparison `result == interval` / `result == EmptySet` of whole sets (or a subset test of the interval in the result)."""
+    res = RuleResult('C06.S4', 'the SymPy bridge compares the solution set with the premise interval as whole sets, never by parts', floor=2)
+    f = repo.func(SYMPY, 'solve_with_interval')
+    cfg = cfg_of(f.node)
+    solved = {t.id for n in ast.walk(f.node) if isinstance(n, ast.Assign) and isinstance(n.value, ast.Call) and 'solveset' in (call_name(n.value) or '')
+              for t in n.targets if isinstance(t, ast.Name)}
+    need(solved, 'solve_with_interval: result of solveset not bound to a name')
+    n_true = 0
+    for r in cfg.return_nodes():
+        v = r.ast.value
+        if v is None or (isinstance(v, ast.Constant) and v.value in (False, None)):
+            continue
+        if isinstance(v, ast.Name) and v.id not in solved:
+            v = cfg.value_at(r, v, depth=1)       # `same = res == interval; return same`
+        n_true += 1
+        cp = compare_parts(v)
+        whole = False
+        if cp and cp[0] is ast.Eq:
+            sides = [cp[1], cp[2]]
+            whole = any(isinstance(x, ast.Name) and x.id in solved for x in sides) and all(
+                isinstance(x, ast.Name) or (dotted(x) or '').endswith('EmptySet') or (isinstance(x, ast.Call) and 'solveset' in (call_name(x) or '')) for x in sides)
+        if isinstance(v, ast.Call) and call_attr(v) in ('is_subset', 'issubset') and v.args and isinstance(v.args[0], ast.Name) and v.args[0].id in solved:
+            whole = True
+        parts = sorted({a.attr for a in ast.walk(v) if isinstance(a, ast.Attribute) and isinstance(a.value, ast.Name) and
+                        (a.value.id in solved or a.value.id == 'interval') and a.attr not in ('is_subset', 'issubset')})
+        res.add('%s :: solve_with_interval :: answer(%s)' % (SYMPY, src(r.ast.value, 40)), whole and not parts,
+                'whole sets are compared' if whole and not parts else
+                'line %d answers by `%s`%s: sets with equal end points need not be equal (open or closed ends) - from x in [0, 1] the goal 1 - x*x > 0 '
+                'was accepted, which fails at x = 1' % (r.lineno, src(v, 80), (', which looks at the parts %s only' % parts) if parts else ''),
+                '%s:%d' % (SYMPY, r.lineno))
+    need(n_true >= 2, 'solve_with_interval: fewer than two accepting answers found')
+    return res
+
+
 def rules(repo):
-    return [rule_z1(repo)] + rule_z2_z3(repo) + [rule_z4(repo), rule_s1(repo), rule_s2(repo), rule_s3(repo), rule_z5(repo), rule_z6(repo), rule_z7(repo), rule_z8(repo)]
+    return [rule_z1(repo)] + rule_z2_z3(repo) + [rule_z4(repo), rule_s1(repo), rule_s2(repo), rule_s3(repo), rule_s4(repo), rule_z5(repo), rule_z6(repo), rule_z7(repo), rule_z8(repo)]
